@@ -29,7 +29,7 @@ EXPLANATION = (
     'parents are derived from its body (getters resolved); whenever a recompute call on node X reports a change and writes a field of the first kind, X '
     'itself is scheduled, and for a field of the second kind every child of X is scheduled, on every path on which the change is reported; every '
     'element of the recompute set is handed to the recomputation.'
-    ' Added later; (7) the guard of the parent recursion in updateScores holds for (start node, nothing changed).')
+    ' Added later; (7) the guard of the parent recursion in updateScores holds for (start node, nothing changed). (8) every change of a pending mark is followed by updateScores (directly or through a function that always recomputes) on every path.')
 UNDECIDED = ('that scores are at the fixed point of the negamax / path-error / expansion-cost equations for every history (value-level '
              'over a DAG); of the upward (negamax / expansion cost) scheduling only the start of the walk (C19.7) is decided, not the updateThis/updateChildren flags.')
 ASSUMPTIONS = ['Serializer::serialize / deSerialize are inverse for equal type lists (utility code outside this property)']
@@ -52,6 +52,7 @@ def run(fb, rep, tier):
     c5_recompute_dependencies(fb, rep)
     c6_depth_propagation(fb, rep)
     c7_parents_of_start(fb, rep)
+    c8_pending_marks(fb, rep)
 
 
 def c4_set_ordering(fb, rep):
@@ -691,3 +692,53 @@ def c7_parents_of_start(fb, rep):
             rep.ob(clause, 'K4 guard', 'updateScores: the parents of the node it was called on are recomputed even when the node itself did not change (they may have gained it as a child)',
                    not blocked, R.site(g, e), 'guards of the parent recursion: %s; false for (start node, unchanged): %s' % ([('' if s_ else '!') + show(c, 60) for c, s_ in guards], blocked), f.sname)
     rep.floor(clause, 'parent recursions in updateScores', n, 1)
+
+
+# ----------------------------------------------------------------------------- .8
+
+def c8_pending_marks(fb, rep):
+    """K2 the pending marks are an input of the expansion-cost equations (a node being searched is excluded from the choice of
+    what to expand next), so the scores are a fixed point only if every change of a mark is followed by a recomputation
+    from that node.  Every call of a function that inserts into / erases from BookData::pendingPositions must be followed,
+    on every path to the caller's exit, by a call of BookNode::updateScores.  A mark erased without it - on the path where
+    a discarded search result skips setSearchResult - leaves the node and its ancestors with costs computed for a pending
+    node, which a save + reload does not reproduce."""
+    clause = 'C19.8'
+    writers = set()
+    for f in fb.funcs.values():
+        if not f.has_cfg or not R.in_prog(f):
+            continue
+        for b, i, e in f.events():
+            if e.get('k') == 'call' and e.get('recv') is not None and (ap(e['recv']) or '').endswith('.pendingPositions') and \
+                    cname(e).split('::')[-1] in ('insert', 'erase', 'clear', 'emplace', 'swap', 'operator='):
+                writers.add(f.sname)
+    if rep.floor(clause, 'functions that change the pending marks', len(writers), 2) is False or not writers:
+        return
+    # a failed assertion does not return: such a path is not a path to the caller's exit
+    is_update = lambda e: e is not None and e.get('k') == 'call' and (cname(e).split('::')[-1] == 'updateScores' or cname(e) in ('__assert_fail', 'abort', 'std::abort', 'std::terminate'))
+    # wrappers: functions of the book builder that recompute on every path (setSearchResult, ...), to a fixed point
+    base_update = is_update
+    always = set()
+    cands = [g for g in fb.funcs.values() if g.has_cfg and R.in_prog(g) and g.sname.startswith('BookBuild::')]
+    for _ in range(4):
+        grew = False
+        upd = lambda e: base_update(e) or (e is not None and e.get('k') == 'call' and cname(e) in always)
+        for g in cands:
+            if g.sname not in always and g.sname.split('::')[-1] != 'updateScores' and g.path_avoiding((g.entry, -1), R.at_exit, upd) is None:
+                always.add(g.sname)
+                grew = True
+        if not grew:
+            break
+    is_update = lambda e: base_update(e) or (e is not None and e.get('k') == 'call' and cname(e) in always)
+    rep.extra['functions_that_always_recompute'] = sorted(always)
+    n = 0
+    for f in sorted(fb.funcs.values(), key=lambda x: x.key):
+        if not f.has_cfg or not R.in_prog(f) or f.sname in writers:
+            continue
+        for b, i, e in f.events():
+            if e.get('k') == 'call' and cname(e) in writers:
+                n += 1
+                w = f.path_avoiding((b, i), R.at_exit, is_update)
+                rep.ob(clause, 'K2 must-pass-through', '%s: the change of a pending mark (%s) is followed by updateScores on every path' % (f.sname.split('::')[-1], cname(e).split('::')[-1]),
+                       w is None, R.site(f, e), '' if w is None else 'path to the exit without a recomputation: ' + ' -> '.join('B%s@%s' % x for x in w[-6:]), f.sname)
+    rep.floor(clause, 'call sites that change a pending mark', n, 2)
